@@ -9,18 +9,22 @@ NOTE = ("Trusted base: Lean 4.33.0 kernel; axioms propext/Quot.sound/Classical.c
         "no sorry/admit/native_decide/bv_decide); tools/extract.py; the C++ harness and the line-protocol driver (unverified glue); "
         "the correspondence is differential execution on generated cases. ")
 
-CHECKS = {
-    "C01": dict(
-        technique="Lean 4 proof: inductive invariant over all schedules and stale loads (view semantics) + wrap-around refinement; extraction of memory orders; differential correspondence under an atomic shim",
-        text="Machine-checked proof (Lean 4) that in every state reachable by any interleaving and any legal stale atomic load, every enabled producer/consumer step of the bounded queue is safe (no torn/early/overwritten byte, records contiguous, FIFO exactly-once), for every capacity, batch threshold and size sequence, and that the 2^w-modular arithmetic of the C++ refines the free-running model through any number of wraps. Tied to the code by (1) extracting the four memory orders from the header and re-proving OrdersOK for them, (2) running the real BoundedSPSCQueueImpl<uint8_t|uint16_t|size_t> under an atomic shim with the same schedules as the Lean model and diffing every observation, (3) a happens-before race detector and payload/FIFO oracle on the real code.",
-        note=NOTE + "Assumes the store-history view semantics renders C++11 release/acquire for single-writer atomics; QUILL_X86ARCH cache-flush intrinsics not modelled.",
-        ref="§5 C01, Appendix A.1"),
-    "C09": dict(
-        technique="Lean 4 proof: progress lemma on the queue invariant (drained queue publishes, reload grants any n ≤ capacity); extraction of the drain rule; differential correspondence + drained-state probes on the real queue",
-        text="Machine-checked proof that in every reachable drained state commit_read publishes the reader position and a producer reload of the newest value is followed by a grant for every 0 < n ≤ capacity (so no stall on an empty queue), plus a proved counter-witness for the batching-only rule of the pinned tree (finding F3, repaired by a fix: commit). Tied to the code by extracting the drain rule from commit_read, by differential execution of the real queue against the model (every grant/deny and every publication compared) and by probing every drained state the generator reaches with boundary sizes. The end-to-end retry loop is covered by the backend checks.",
-        note=NOTE + "Queue level only in this check; 'finitely many polls' relies on the fairness assumption that a store eventually becomes visible to an acquire load.",
-        ref="§5 C09, §7 F3"),
-}
+def discover_checks():
+    import importlib
+    import sys
+    sys.path.insert(0, os.path.join(HERE, "tools"))
+    table = {}
+    for f in sorted(os.listdir(os.path.join(HERE, "tools", "props"))):
+        if f.endswith(".py") and f != "__init__.py":
+            m = importlib.import_module("props." + f[:-3])
+            for p, c in getattr(m, "MANIFEST", {}).items():
+                c = dict(c)
+                c["note"] = NOTE + c.get("note", "")
+                table[p] = c
+    return table
+
+
+CHECKS = discover_checks()
 
 NOT_YET = {
 }
